@@ -257,7 +257,13 @@ def make_base(spec, mixins=()):
             return d
 
         def seed(self, m):
-            return AliasDict(self.alias_relation)
+            d = AliasDict(self.alias_relation)
+            for k, v in self._spec.get("seeds", [{}] * self.ensemble_size)[m].items():
+                if isinstance(v, dict):
+                    d[k] = Timeseries(np.array([fl(x) for x in v["times"]]), np.array([fl(x) for x in v["values"]]))
+                else:
+                    d[k] = fl(v)
+            return d
 
         def variable_is_discrete(self, variable):
             return False
